@@ -1378,7 +1378,7 @@ impl Prop for C19 {
                 "lifecycle comparison uses the library's detector (parse_lifecycles_buffered_from_stream) in-process; the written-and-reparsed variant uses DltMessage::to_write + parse_dlt_with_storage_header; the adlt binary (convert --anon -o) itself is not run by this module".into(),
                 "if the lifecycle detector panics on the original stream already (C05 matter) the case is counted under anon_lc_detector_panics_on_both and not compared".into(),
             ],
-            budget_s: (38, 1200),
+            budget_s: (90, 1200),
             workers: 0,
             required_landmarks: vec!["cli_anon_case", 
                 "decoded:NonVerbose", "decoded:SomeIp", "decoded:CAN", "decoded:Muniic", "decoded:Rewrite",
